@@ -263,8 +263,8 @@ func init() {
 		}, blockAssumptions...)
 		add("C09", na, HSpec{Pkg: minterPkg, Func: "VerifHarness_Node_FirstBlockThenRestartOrSync", Tier: "quick", Configs: []map[string]int64{cfg("initial", 0, "mode", 0), cfg("initial", 7, "mode", 0)},
 			Bounds: "genesis + one block, then a restart; two validators with symbolic stakes, reward, emission, price"})
-		add("C29", na, HSpec{Pkg: minterPkg, Func: "VerifHarness_Node_FirstBlockThenRestartOrSync", Tier: "quick", Configs: []map[string]int64{cfg("initial", 0, "mode", 1), cfg("initial", 7, "mode", 1)},
-			Bounds: "genesis + one block, then snapshot and restore into a fresh node; stream and IAVL export/import as modelled"})
+		add("C29", na, HSpec{Pkg: minterPkg, Func: "VerifHarness_Node_FirstBlockThenRestartOrSync", Tier: "quick", Configs: []map[string]int64{cfg("initial", 0, "mode", 1), cfg("initial", 7, "mode", 1), cfg("initial", 7, "mode", 1, "viaCommit", 1)},
+			Bounds: "genesis + one block (two with viaCommit), then snapshot and restore into a fresh node; with viaCommit the snapshot is the one Commit itself triggers (Blockchain.snapshot through the SDK manager, modelled as 'ask the snapshotter, keep the stream'; the goroutine run to completion at the spawn point); stream and IAVL export/import as modelled"})
 	}
 
 	// ---------------------------------------------------------- C25 map races between API reads and block execution
@@ -439,7 +439,7 @@ func init() {
 			"custom-coin stakes are outside the registered bound",
 		}, txAssumptions...)
 		sc := func(kv ...interface{}) map[string]int64 { return cfg(append([]interface{}{"concretePrices", 1}, kv...)...) }
-		stq := HSpec{Pkg: txPkg, Func: "VerifHarness_Stake_Deliver", Tier: "quick", Configs: []map[string]int64{sc("kind", 0), sc("kind", 1), sc("kind", 2), sc("kind", 3), sc("kind", 2, "maturedBatch", 1), sc("kind", 4), sc("kind", 0, "waitlisted", 1), sc("kind", 1, "waitlisted", 1), sc("kind", 5), sc("kind", 5, "foreign", 1), sc("kind", 6)},
+		stq := HSpec{Pkg: txPkg, Func: "VerifHarness_Stake_Deliver", Tier: "quick", Configs: []map[string]int64{sc("kind", 0), sc("kind", 1), sc("kind", 2), sc("kind", 3), sc("kind", 2, "maturedBatch", 1), sc("kind", 4), sc("kind", 0, "waitlisted", 1), sc("kind", 0, "waitlisted", 2), sc("kind", 1, "waitlisted", 1), sc("kind", 5), sc("kind", 5, "foreign", 1), sc("kind", 6)},
 			Bounds: "one CheckTx+DeliverTx of Unbond / MoveStake / Lock / Delegate / Unbond-under-LockStake / SetCandidateOn / SetCandidateOff by A; value, stake, balances, jail height symbolic"}
 		stt := HSpec{Pkg: txPkg, Func: "VerifHarness_Stake_Deliver", Tier: "thorough", Configs: []map[string]int64{cfg("kind", 0), cfg("kind", 1), cfg("kind", 3)},
 			Bounds: "symbolic price table"}
@@ -618,6 +618,8 @@ func init() {
 			HSpec{Pkg: "coreV2/state", Func: "VerifHarness_C14_FillThenClose", Tier: "thorough", Configs: []map[string]int64{
 				oc("orders", 2, "commit", 1, "close", 1), oc("orders", 2, "commit", 0), oc("orders", 3, "commit", 1, "close", 0), oc("orders", 3, "commit", 1, "close", 1), oc("orders", 3, "commit", 0, "reverseInsert", 1)},
 				Bounds: "up to 3 resting orders (two at one price), committed or not, inserted in or against priority order"})
+		add("C01", c14a, HSpec{Pkg: "coreV2/state", Func: "VerifHarness_C14_FillThenClose", Tier: "quick", Configs: []map[string]int64{oc("orders", 1, "commit", 1, "close", 0)},
+			Bounds: "1 resting order partly filled by a symbolic taker amount and cancelled in the same block: the refund is the remaining escrow"})
 		add("C07", c14a, HSpec{Pkg: "coreV2/state", Func: "VerifHarness_C14_FillThenClose", Tier: "quick", Configs: []map[string]int64{oc("orders", 2, "commit", 1, "close", 0)},
 			Bounds: "2 resting orders; taker amount symbolic; no panic"})
 	}
